@@ -204,7 +204,7 @@ func TestVerif_C10_Messenger(t *testing.T) {
 				Type:    rapid.SampledFrom([]int{0, 1, 2, 3, 4, 5, 6, 42, -7}).Draw(t, "type"),
 				Key:     rapid.SampledFrom([]string{"same", "same", "", "other"}).Draw(t, "key"),
 				Rec:     rapid.SampledFrom([]string{"", "same", "same", "otherkey", "nokey", "novalue", "emptyvalue"}).Draw(t, "rec"),
-				Cluster: rapid.SampledFrom([]int{0, 1, -1, 1 << 31 - 1, -(1 << 31)}).Draw(t, "cluster"),
+				Cluster: rapid.SampledFrom([]int{0, 1, -1, 1<<31 - 1, -(1 << 31)}).Draw(t, "cluster"),
 			}
 			s.Closer = rapid.SliceOfN(rapid.Custom(genRespPeer), 0, 8).Draw(t, "closer")
 			s.Provs = rapid.SliceOfN(rapid.Custom(genRespPeer), 0, 8).Draw(t, "provs")
